@@ -13,6 +13,10 @@ CASES = [
     ("h/*/*/*", "h/a/", "/v1", "h/s/q1/v1", "@/H/S/q1/zz", "/H/S/q1/", "Q"),
     ("h/a/**", "h/a/x/v1/", "", "h/a/x/v1/g", "@/H/A/x/v1/O/y_v1.g", "/H/A/x/v1/O/x_v1.", "Q"),
     ("h/s/q1/**", "h/s/q1/v1/", "/c", "h/s/q1/v1/c;h/s/q1/v1/m", "@/H/S/q1/v1/E/q2_v1.c;@/H/S/q1/v1/E/q1_v1.Q", "", ""),
+    # a '>' search with the extension open (several typed searches of one string); side-cars next to an entity folder; overlapping ',' alternatives
+    ("h/a/*/>/*", "h/a/", "/v2/g", "h/a/x/v1/m;h/a/x/v2/g;h/a/x/v1/b", "@/H/A/x/v3/O/y_v3.g", "/H/A/x/v3/x_v3.", "Q"),
+    ("h/a/*", "h/a/", "", "h/a/x/v1/m", "@/H/A/.x.data.json;@/H/A/x/.v1.data.json", "/H/A/.", ".data.json"),
+    ("h/a/x,*", "h/a/", "", "h/a/x;h/a/y/v1", "@/H/A/x/vv", "/H/A/x/v1/x_v1.", "QQ"),
 ]
 ALL_CASES = [("h/*/*", "h/a/", "", "h/s/q1"), ("h/*", "h/a/", "", ""), ("*", "h/a/", "", ""), ("h/a/*/*", "h/a/", "/v1", "h/a/x/v2"), ("h/s,a", "h/a/", "", ""), ("*/a,s", "h/a/", "", ""), ("*/*", "h/a/", "", ""), ("*/s,a/*", "h/a/", "", "h/s/q1")]
 
@@ -21,9 +25,9 @@ def x_obligations(tier):
     o = []
     T = 170 if tier == "quick" else 600
     for i, (s, epre, esuf, fixed, junk, jpre, jsuf) in enumerate(CASES):
-        if tier == "quick" and i in (4, 7):
+        if tier == "quick" and i in (4, 7, 8):
             continue
-        o.append(Obl(f"C11-paths[{s},{epre!r}+c+{esuf!r}]", M, "paths_agree", env={"VF_SEARCH": s, "VF_EPRE": epre, "VF_ESUF": esuf, "VF_FIXED": fixed, "VF_JUNK": junk, "VF_JPRE": jpre, "VF_JSUF": jsuf},
+        o.append(Obl(f"C11-paths[{s},{epre!r}+c+{esuf!r}{',junk ' + junk.split(';')[0] if i >= 9 else ''}]", M, "paths_agree", env={"VF_SEARCH": s, "VF_EPRE": epre, "VF_ESUF": esuf, "VF_FIXED": fixed, "VF_JUNK": junk, "VF_JPRE": jpre, "VF_JSUF": jsuf},
                      timeout=T, path_timeout=200, family="C11-paths",
                      bound=f"search {s!r}; entities {epre!r}+c+{esuf!r} (c any character) and {fixed}; local and server trees; junk {junk} and {jpre!r}+d+{jsuf!r} (d any character)"))
     # two types that search the same glob (miniB: pr__file / pr__doc): the file-system finder still answers like the list search
@@ -33,6 +37,11 @@ def x_obligations(tier):
     for (s, epre, esuf, fixed) in ALL_CASES:
         o.append(Obl(f"C11-all[{s}]", M, "all_agree", env={"VF_SEARCH": s, "VF_EPRE": epre, "VF_ESUF": esuf, "VF_FIXED": fixed}, timeout=T, family="C11-all",
                      bound="FindInAll over constants + FindInPaths (glob stub)"))
+    # the shipped data configuration's own routing (three constants-backed levels chained by parent_source)
+    for s in ["*/a/*", "*/*/*", "*/a/char"] if tier == "quick" else ["*/a/*", "*/*/*", "*/a/char", "hamlet/*/*", "*/*", "*/a/>", "hamlet/a/char/*"]:
+        o.append(Obl(f"C11-all[shipped,{s}]", M, "all_agree", env={"VF_CONF": "shipped", "VF_SEARCH": s, "VF_EPRE": "hamlet/a/char/", "VF_ESUF": "", "VF_FIXED": "hamlet/s/sq010",
+                                                                  "VF_CONST_TYPES": "project,asset,shot,asset__assettype", "VF_CONST_SIDS": "hamlet,hamlet/a,hamlet/s,hamlet/a/char,hamlet/a/location,hamlet/a/prop,hamlet/a/fx"},
+                     timeout=T, path_timeout=300, family="C11-all", bound="shipped spil_data_conf: FindInAll over its constants-backed levels + FindInPaths (glob stub); one asset with a symbolic one-character name"))
     o.append(Obl("C11-magic[h/a/x[c]]", M, "magic_name", env={"VF_EPRE": "h/a/", "VF_ESUF": ""}, timeout=T, family="C11-magic",
                  bound="an existing entity named 'x[' + c + ']' (c any character) searched by its own Sid; expected to hit the known finding C11-glob-magic"))
     o.append(Obl("C11-reach", M, "reach", env={"VF_SEARCH": "h/a/*", "VF_EPRE": "h/a/", "VF_FIXED": "h/a/x/v1/m"}, timeout=150, expect="refute", family="C11-twin"))
